@@ -1,6 +1,7 @@
 import ChemProofs.Drv.C12
 import ChemProofs.Drv.Comp
 import ChemProofs.Drv.Peaks
+import ChemProofs.Drv.Spec
 /- Model driver: `driver <mode>` reads op lines on stdin, prints one observation line per op. -/
 open Chem.Drv
 
@@ -18,6 +19,9 @@ def main (args : List String) : IO UInt32 := do
     return 0
   | ["comp"] => do
     loop (← IO.getStdin) runCompCase
+    return 0
+  | ["spec"] => do
+    loop (← IO.getStdin) runSpecCase
     return 0
   | ["peaks"] => do
     loop (← IO.getStdin) runPeaksCase
